@@ -62,7 +62,10 @@ def generator_fn(g):
     vi.int = lambda x: x              # keep the reading symbolic through int(time.time())
     time.time = lambda: readings.pop(0)
     try:
-        idx = vi.VersionIndex(conn=None, last_timestamp=m, underlying_db_path=None)
+        try:
+            idx = vi.VersionIndex(conn=None, last_timestamp=m, underlying_db_path=None)
+        except TypeError as ex:
+            return {"nontrivial": False, "sample": {"stale": "VersionIndex constructor changed: %s" % ex}}
         v1 = idx.generate_new_output_version(commit=None)
         v2 = idx.generate_new_output_version(commit=None)
     finally:
